@@ -39,6 +39,8 @@ def run(chk, tier):
                      ('R3', 'decode reads only the first 8 octets of the quoted transport header', 6), ('R4', 'configuration wiring by name', 4), ('R5', 'TCP socket replies carry the probe\'s own ports', 2)):
         chk.rule(r, d, floor=fl)
     run_sub(chk, 'c03', 'C03.', {'R5v', 'R5'})
+    # the slot a decoded sequence is matched against is the slot its probe was stored in (and a re-issue leaves the abandoned slot Skipped)
+    run_sub(chk, 'c07', 'C07.', {'R3'})
     N = Norm(prog)
     psn = [y['name'] for y in prog.adt('trippy_core::strategy::ProtocolStrategyResponse')['variants'][0]['fields']]
     cells = 0
